@@ -2,6 +2,7 @@ import ObiVerif.Model.ReadErr
 import ObiVerif.Model.Kseq
 import ObiVerif.Model.KseqIdx
 import ObiVerif.Model.ReadMulti
+import ObiVerif.Model.ReadGlue
 import ObiVerif.Driver.Util
 /-! line protocol for C17 -/
 namespace ObiVerif.Driver.C17
@@ -67,8 +68,87 @@ def runKseq (fin : Kseq.Fin) (d : List UInt8) : String :=
      | .stuck, _ | _, .stuck => "stuck"
      | _, _ => "accepted")
 
+/-! ### `glue` cases: obiconvert on several inputs (`Model/ReadGlue.lean`) -/
+
+open ObiVerif.ReadGlue in
+/-- one input of a `glue` case -/
+inductive GlueIn
+  | bad                          -- a path that cannot be opened
+  | lied                         -- the library hides the damage: no opinion
+  | mismatch                     -- the closed form and the transcription differ (never: `openFile_cls`)
+  | file (r : FileRes Nat)
+
+/-- the batches of a file of `nrec` records (what a batch holds: its number of records) -/
+def glueBatches (nrec : Nat) : List Nat :=
+  List.replicate (nrec / 5000) 5000 ++ (if nrec % 5000 = 0 then [] else [nrec % 5000])
+
+open ObiVerif.ReadGlue in
+def glueInput (mode : Mode) (tok : String) : Option GlueIn :=
+  match tok with
+  | "empty" => some (.file (.stream [] .ok))
+  | "missing" | "dangling" => some .bad
+  | _ =>
+    match tok.splitOn ":" with
+    | [_, _, nrec, _, n, e, len] =>
+      match nrec.toNat?, kv "n" n, kv "len" len, (if e.startsWith "e=" then some (e.drop 2).toString else none) with
+      | some nrec, some n, some len, some e =>
+        if e = "raw" || e = "altered" then some .lied else
+        match parseLibErr e with
+        | none => none
+        | some le =>
+          if le = .eof && n != len then some .lied else
+          let cls := openClass mode 1048576 n (bufErr le)
+          -- the transcription itself on the small streams (the closed form is proved equal for every stream)
+          let same := n > 65536 ||
+            (openFile mode endOfLastFastaEntry 1048576 1048576 ⟨List.replicate n 62, bufErr le⟩).cls == cls
+          if !same then some .mismatch else
+          some (.file (match cls with
+            | .good => .stream (glueBatches nrec) .ok
+            | .openErr => .openErr
+            | .openFatal => .openFatal
+            | .streamFatal => .stream (glueBatches (nrec * n / (len + 1))) .fatal))
+      | _, _, _, _ => none
+    | _ => none
+
+open ObiVerif.ReadGlue in
+def glueShow (o : CmdOut Nat) (extra : Nat) (files : List (FileRes Nat)) (ordered : Bool) : String :=
+  match o with
+  | .fatal => "exit-nonzero"
+  | .ok bs =>
+    "exit0 " ++ toString (bs.sum + extra) ++
+      (if ordered && bs == (files.map FileRes.batches).flatten then " inorder" else "")
+
+open ObiVerif.ReadGlue in
+def runGlue (m r l : String) (toks : List String) : String :=
+  let mode? : Option Mode := match m with
+    | "m=guess" => some .guess | "m=fasta" | "m=fastq" => some .forced | _ => none
+  let nr? : Option Nat := match r with | "r=1" => some 1 | "r=n" => some 4 | _ => none
+  match mode?, nr?, toks.mapM (fun t => mode?.bind (fun md => glueInput md t)) with
+  | some _, some nr, some ins =>
+    if ins.any (fun i => match i with | .mismatch => true | _ => false) then "layer-mismatch" else
+    if ins.any (fun i => match i with | .lied => true | _ => false) then "lib-clean" else
+    let bad := ins.any (fun i => match i with | .bad => true | _ => false)
+    let files := ins.filterMap (fun i => match i with | .file f => some f | _ => none)
+    let paired := l == "l=paired"
+    let (expanded, second, extra) : Option (List (FileRes Nat)) × Option (FileRes Nat) × Nat :=
+      if bad then (none, none, 0)
+      else if paired then
+        (match files with
+         | [a, b] => (some [a], some b, b.batches.sum)
+         | _ => (none, none, 0))
+      else (some files, none, 0)
+    let shown := fun (early : Bool) (sched : List Nat) =>
+      glueShow (cliRead early sched nr expanded second) extra files (nr == 1 && !paired)
+    let a := shown false [0]
+    -- the outcome does not depend on the interleaving (`cli_error_rejected`, `cli_clean_ok`): three other schedules
+    let others := [shown true [0], shown false [3, 1, 2, 0], shown true [2, 0, 3, 1, 1]]
+    let strip := fun (s : String) => if nr == 1 then s else (s.splitOn " inorder").headD s
+    if others.all (fun o => strip o == strip a) then a else "sched-mismatch"
+  | _, _, _ => "bad-op"
+
 def run (line : String) : String :=
   match words line with
+  | "glue" :: m :: r :: l :: toks => runGlue m r l toks
   | ["chunk", b, _, d, e] =>
     match kv "b" b, unhex d, parseErr e with
     | some b, some d, some e =>
